@@ -176,7 +176,10 @@ def introspect(job, res):
         module['bodies'].append([c.__name__, [ref_of(fix, e) for e in c.Entries]])
     loaded = {'fields': [], 'messages': []}
     for c in own(mods['fields'], fix.Field):
-        loaded['fields'].append([c.Name, c.Tag, c.FieldType.__name__, c.FieldType.type_cls.__name__])
+        # Values as the class object has them (key text, is-a-str, constant name) and the constants read back one by one
+        vals = [[str(k), isinstance(k, str), v] for k, v in c.Values.items()]
+        consts = [[v, repr(getattr(c, v, None))] for v in c.Values.values()]
+        loaded['fields'].append([c.Name, c.Tag, c.FieldType.__name__, c.FieldType.type_cls.__name__, vals, consts])
     loaded['header'] = tree_of(fix, mods['bodies'].Header, checks)
     loaded['trailer'] = tree_of(fix, mods['bodies'].Trailer, checks)
     base_msg = mods['app'].Message
